@@ -28,17 +28,18 @@ type KnownFinding struct {
 }
 
 type PropMeta struct {
-	Level       string            `json:"level"`
-	Explanation string            `json:"explanation"`
-	Assumptions []string          `json:"assumptions"`
-	ReplayPkg   string            `json:"replay_pkg"`  // package dir (relative to repo) the replay driver is injected into
-	ReplayTest  string            `json:"replay_test"` // test function name
-	Bounded     []string          `json:"bounded"`
-	FrameAllow  []string          `json:"frame_allow"`  // C05: prefixes of modifies designators a request-path function may declare
-	FrameExempt map[string]string `json:"frame_exempt"` // function -> reason (functions that run user code)
-	BoundedPkg  string            `json:"bounded_pkg"`  // package dir (relative to repo) of the bounded stand-in test
-	BoundedTest string            `json:"bounded_test"` // test function name (file: bounded/<id>/bounded_test.go)
-	Audit       []string          `json:"audit"`        // thorough tier: tests of /verif/audit (bounded differential audit of assumed library contracts)
+	Level         string            `json:"level"`
+	Explanation   string            `json:"explanation"`
+	Assumptions   []string          `json:"assumptions"`
+	ReplayPkg     string            `json:"replay_pkg"`  // package dir (relative to repo) the replay driver is injected into
+	ReplayTest    string            `json:"replay_test"` // test function name
+	Bounded       []string          `json:"bounded"`
+	FrameAllow    []string          `json:"frame_allow"`    // C05: prefixes of modifies designators a request-path function may declare
+	FrameExempt   map[string]string `json:"frame_exempt"`   // function -> reason (functions that run user code)
+	BoundedPkg    string            `json:"bounded_pkg"`    // package dir (relative to repo) of the bounded stand-in test
+	BoundedTest   string            `json:"bounded_test"`   // test function name (file: bounded/<id>/bounded_test.go)
+	ReplayHelpers []string          `json:"replay_helpers"` // extra files (relative to /verif/replay) injected beside the driver
+	Audit         []string          `json:"audit"`          // thorough tier: tests of /verif/audit (bounded differential audit of assumed library contracts)
 }
 
 func hasProp(ps []string, id string) bool {
@@ -440,6 +441,9 @@ func runReplay(repo, verifDir, id string, meta PropMeta, seed int, model, input 
 	ov := map[string]map[string]string{"Replace": {filepath.Join(pkgDir, "zz_verif_replay_"+strings.ToLower(id)+"_test.go"): src}}
 	// helper files shared by drivers
 	helpers, _ := filepath.Glob(filepath.Join(verifDir, "replay", id, "*_helper_test.go"))
+	for _, h := range meta.ReplayHelpers {
+		helpers = append(helpers, filepath.Join(verifDir, "replay", h))
+	}
 	for _, h := range helpers {
 		ov["Replace"][filepath.Join(pkgDir, "zz_verif_"+filepath.Base(h))] = h
 	}
